@@ -76,9 +76,9 @@ CLAIMS["C13"] = ('Proof-level (Verus, extracted text): with the feature on, an N
     'Verus contract on the extracted NRD rule + Kani bounded harness for block lock heights', "6 C13")
 CLAIMS["C14"] = ("The admission clauses, proof-level. (Verus, extracted text) TransactionPool::add_to_pool stores an entry in the stempool or txpool only if that entry -- after de-aggregation -- passed the kernel-variant check, "
     "PAYS AT LEAST THE MINIMUM FEE FOR ITS WEIGHT whatever the pool's fill level, validates standalone under the transaction weight limit and meets the lock-height rule; is_acceptable refuses a low-fee transaction as LowFeeTransaction before "
-    "looking at capacity (found violated on the pinned tree and repaired: finding F8); reconcile_block always runs the full re-validation of txpool and stempool. (Kani) for ALL input/output/kernel counts and all chain types, a body admitted by "
+    "looking at capacity (found violated on the pinned tree and repaired: finding F8); reconcile_block always runs the full re-validation of txpool and stempool. The inner Pool::add_to_pool stores an entry ONLY after the aggregate of every transaction already in the pool, the optional extra (txpool aggregate, for the stempool) and the new one passed standalone validation, Chain::validate_tx and the block-sums check at the given header -- the joint-validity invariant of the property for submissions -- and Pool::reconcile re-admits entries through that same gate. (Kani) for ALL input/output/kernel counts and all chain types, a body admitted by "
     "the transaction weight rule assembles with the coinbase into a block within the block weight limit (weight formula, AsTransaction/AsLimitedTransaction/AsBlock rules); the minimum-fee comparison uses shifted_fee == (sum of kernel fees) "
-    ">> max fee_shift and weight * base. Joint validity of the pool contents against the chain (Pool::add_to_pool / reconcile / evict / bucket logic: iterator chains over aggregates), reorg-cache handling and the mineable set are history properties and are not decided.",
+    ">> max fee_shift and weight * base. Eviction and bucketing (evict_transaction / bucket_transactions: iterator code; an evicted parent can leave a multi-parent dependent behind until the next reconcile -- observed by reading, not decided), reorg-cache handling, the mineable set and what Chain::validate_tx itself checks are not decided.",
     VERUS_TB + KANI_TB + "the pools' own add_to_pool / reconcile are abstract callees with ghost logs; convert_tx_v2 assumed to preserve the fee functions; counts installed with Vec::set_len (no element is read); fee fold bounded to 2 kernels.",
     "Verus conjunction contracts on the extracted admission path + Kani full-domain harnesses on the real weight/fee functions", "6 C14")
 CLAIMS["C15"] = ("Proof-level for the incremental-update plumbing. (Verus, extracted text) Extension::apply_to_bitmap_accumulator hands BitmapAccumulator::apply the affected leaf indices SORTED, the leaf iterator starting at the chunk start of the "
